@@ -16,8 +16,9 @@ CHECKS = {
    technique='Coq proof (induction over the dimension: three-sweep LDL^T = elimination law-free; A x = b over R; dominance => positive pivots; bit-identical repeated solves) + exact-rational correspondence of the real solver',
    text='For every dimension: the in-place LDL^T sweeps equal the recursive elimination operation for operation (any arithmetic), the '
         'elimination solves A x = b exactly when no pivot vanishes, strict dominance makes every pivot positive, and repeated solves '
-        'are identical. PARTIAL: cyclic Sherman-Morrison correctness and floating-point backward stability are measured by the '
-        'exact-rational correspondence (residual of the real result evaluated exactly), not proved.',
+        'are identical; the cyclic Sherman-Morrison solve returns the solution of the cyclic system for every n >= 2 when the modified matrix factorises '
+        'and 1 + v.z != 0 (C14_cyclic_solve_correct). PARTIAL: floating-point backward stability is measured by the exact-rational correspondence '
+        '(residual of the real result evaluated exactly), not proved.',
    note='Trusted: Coq kernel; R axioms sig_forall_dec, functional_extensionality_dep; hand model TridiagDefs.v tied by K-solve; extraction with ExtrOcamlBasic+ExtrOcamlZBigInt; parametricity between the R and Q instances.',
    design='5/C14'),
  'C15': dict(
